@@ -17,8 +17,11 @@ RULE = ("random bar grids (start minute 0..1300 of the day, interval 1/2/3/5/7/1
         "last bar, with seconds, duplicated, reversed or empty ranges, periods dividing / not dividing the interval, coinciding periods, "
         "positive / negative / sub-minute delays, immediate flag, malformed periods); in 60 % of the cases the same strategy object — with the "
         "same trigger objects, some installed by the caller before the run, the others by initialize() — is run a second time with a fresh "
-        "Actuator on the same grid or on one with another start time / length, and judged against that grid; bucket = (class, parameter class, interval class, "
-        "fired-count class, retired or not, outcome)")
+        "Actuator on the same grid or on one with another start time / length, and judged against that grid; plus runs whose trigger actions "
+        "change strategy.triggers while the loop iterates it (append a new trigger, remove itself, remove the next one, remove an earlier one, "
+        "remove-then-append with nothing ahead, chains of installing triggers, triggers retiring on a bar where the next one is due): every when() "
+        "call is recorded, a trigger installed for the whole evaluation of a bar must be evaluated once and fire iff denoted; bucket = (class, "
+        "parameter class, interval class, fired-count class, retired or not, outcome) / (list changes, interval, triggers, skipped or not, adds, dels)")
 TRUSTED = ["bar times are taken from the implementation's own before_bar calls (the bar index itself is C05's subject)",
            "PriceTrigger / CustomizedTrigger are not time-based and are not part of the property"]
 ASSUMPTIONS = ["a hook changes strategy.triggers in place with append / remove (no insert, no rebinding while the loop runs), removes only installed triggers, "
